@@ -94,7 +94,7 @@ int Handleset_waitReady(HandleSet self, unsigned int timeoutMs)
 }
 void Handleset_destroy(HandleSet self) { free(self); }
 
-ServerSocket TcpServerSocket_create(const char* address, int port) { (void) address; (void) port; return calloc(1, sizeof(struct sServerSocket)); }
+ServerSocket TcpServerSocket_create(const char* address, int port) { (void) address; (void) port; return calloc(1, sizeof(struct sSocket)); }  /* the library ends its listener with Socket_destroy((Socket) serverSocket) */
 void ServerSocket_listen(ServerSocket self) { if (self) self->listening = 1; }
 void ServerSocket_setBacklog(ServerSocket self, int backlog) { (void) self; (void) backlog; }
 Socket ServerSocket_accept(ServerSocket self)
